@@ -1,0 +1,100 @@
+//go:build verif
+
+package controller
+
+import (
+	"time"
+
+	"github.com/pkg/errors"
+	v1 "k8s.io/api/core/v1"
+	"k8s.io/apimachinery/pkg/api/resource"
+	v1lister "k8s.io/client-go/listers/core/v1"
+)
+
+// VerifNewController wires a Controller over injected pod/node listers instead of
+// informers. Apart from the lister construction it mirrors NewController.
+func VerifNewController(opts Opts, allPodLister v1lister.PodLister, allNodeLister v1lister.NodeLister, stopChan <-chan struct{}) (*Controller, error) {
+	listers := make(map[string]*NodeGroupLister)
+	for _, ng := range opts.NodeGroups {
+		if ng.Name == DefaultNodeGroup {
+			listers[ng.Name] = NewDefaultNodeGroupLister(allPodLister, allNodeLister, ng)
+		} else {
+			listers[ng.Name] = NewNodeGroupLister(allPodLister, allNodeLister, ng)
+		}
+	}
+	client := &Client{
+		opts.K8SClient,
+		listers,
+		allPodLister,
+		allNodeLister,
+	}
+
+	cloud, err := opts.CloudProviderBuilder.Build()
+	if err != nil {
+		return nil, errors.Wrap(err, "failed to create cloudprovider")
+	}
+
+	nodegroupMap := make(map[string]*NodeGroupState)
+	for _, nodeGroupOpts := range opts.NodeGroups {
+		cloudProviderNodeGroup, ok := cloud.GetNodeGroup(nodeGroupOpts.CloudProviderGroupName)
+		if !ok {
+			return nil, errors.Errorf("could not find node group \"%v\" on cloud provider", nodeGroupOpts.CloudProviderGroupName)
+		}
+		if nodeGroupOpts.autoDiscoverMinMaxNodeOptions() {
+			nodeGroupOpts.MinNodes = int(cloudProviderNodeGroup.MinSize())
+			nodeGroupOpts.MaxNodes = int(cloudProviderNodeGroup.MaxSize())
+		}
+		nodegroupMap[nodeGroupOpts.Name] = &NodeGroupState{
+			Opts:            nodeGroupOpts,
+			NodeGroupLister: client.Listers[nodeGroupOpts.Name],
+			scaleUpLock: scaleLock{
+				minimumLockDuration: nodeGroupOpts.ScaleUpCoolDownPeriodDuration(),
+				nodegroup:           nodeGroupOpts.Name,
+			},
+			scaleDelta: 0,
+		}
+	}
+
+	return &Controller{
+		Client:        client,
+		Opts:          opts,
+		stopChan:      stopChan,
+		cloudProvider: cloud,
+		nodeGroups:    nodegroupMap,
+	}, nil
+}
+
+// VerifCalcPercentUsage exposes calcPercentUsage.
+func VerifCalcPercentUsage(cpuRequest, memRequest, cpuCapacity, memCapacity resource.Quantity, numberOfUntaintedNodes int64) (float64, float64, error) {
+	return calcPercentUsage(cpuRequest, memRequest, cpuCapacity, memCapacity, numberOfUntaintedNodes)
+}
+
+// VerifCalcScaleUpDelta exposes calcScaleUpDelta for a group of untaintedCount
+// nodes with the given threshold and cached node size.
+func VerifCalcScaleUpDelta(untaintedCount int, cpuPercent, memPercent float64, cpuRequest, memRequest resource.Quantity, thresholdPercent int, cachedCPU, cachedMem resource.Quantity) (int, error) {
+	state := &NodeGroupState{
+		Opts:        NodeGroupOptions{Name: "verif", ScaleUpThresholdPercent: thresholdPercent},
+		cpuCapacity: cachedCPU,
+		memCapacity: cachedMem,
+	}
+	return calcScaleUpDelta(make([]*v1.Node, untaintedCount), cpuPercent, memPercent, cpuRequest, memRequest, state)
+}
+
+// VerifLockState reads the scale lock of a node group without side effects.
+func (c *Controller) VerifLockState(nodegroup string) (isLocked bool, lockTime time.Time, requestedNodes int, ok bool) {
+	state, ok := c.nodeGroups[nodegroup]
+	if !ok {
+		return false, time.Time{}, 0, false
+	}
+	return state.scaleUpLock.isLocked, state.scaleUpLock.lockTime, state.scaleUpLock.requestedNodes, true
+}
+
+// VerifGroupState reads the per-group values a scan carries over to the next one.
+func (c *Controller) VerifGroupState(nodegroup string) (minNodes, maxNodes, scaleDelta int, taintTracker, forceTaintTracker []string, ok bool) {
+	state, ok := c.nodeGroups[nodegroup]
+	if !ok {
+		return 0, 0, 0, nil, nil, false
+	}
+	return state.Opts.MinNodes, state.Opts.MaxNodes, state.scaleDelta,
+		append([]string(nil), state.taintTracker...), append([]string(nil), state.forceTaintTracker...), true
+}
